@@ -261,10 +261,22 @@ func runC05(a *A) {
 		whereUses := func(in ssa.Instruction) bool { return false }
 		_ = whereUses
 		outs := w.Run(fn.Blocks[0], nil)
+		returned := 0
 		for _, o := range outs {
+			if o.Ended == "loop" {
+				// the walk gave up going round a loop whose trip count it does not know; every way out of
+				// the loop is walked as a path of its own, so nothing that returns is lost
+				continue
+			}
+			if o.Ended == "return" {
+				returned++
+			}
 			if o.Ended != "return" || o.Ret != F {
 				bad = fmt.Sprintf("with the predicate false a path ends with %s keep=%v", o.Ended, o.Ret)
 			}
+		}
+		if returned == 0 && bad == "" {
+			bad = "no path through the function returns under the fixed conditions"
 		}
 		_ = analyticAfterReject
 		_ = evalAn
